@@ -89,10 +89,21 @@ type c01EH struct {
 }
 
 // c01Req is the client-controlled request data the `to` templates and the request-dependent `if` conditions read:
-// the value of the header X-C01-To and of the query parameter `to` (nil = absent).
+// the value of the header X-C01-To and of the query parameter `to` (nil = absent) — and what the middlewares in front
+// of the service handler read: the Origin header (nil = absent) and whether the request is a CORS preflight request
+// (method OPTIONS with `Access-Control-Request-Method: GET`; otherwise the method is GET).
 type c01Req struct {
-	Hdr *string `json:"hdr"`
-	Q   *string `json:"q"`
+	Hdr       *string `json:"hdr"`
+	Q         *string `json:"q"`
+	Origin    *string `json:"origin"`
+	Preflight bool    `json:"preflight"`
+}
+
+// c01Cors is `serve.<service>.cors` (config.CORS): allowed_origins, allowed_methods (nil = not set), allow_credentials.
+type c01Cors struct {
+	Origins []string `json:"origins"`
+	Methods []string `json:"methods"`
+	Creds   bool     `json:"creds"`
 }
 
 type c01Rule struct {
@@ -115,6 +126,18 @@ type c01Cfg struct {
 	Verbose bool `json:"verbose"`
 	// log.level: trace | debug | info | warn | disabled (absent = disabled)
 	Log string `json:"log"`
+	// serve.decision.cors and serve.proxy.cors (nil = not configured). Only the proxy service has a CORS middleware.
+	Cors *c01Cors `json:"cors"`
+}
+
+// key identifies a service configuration (the struct holds a pointer and slices, so it cannot be a map key itself)
+func (c c01Cfg) key() string {
+	data, err := json.Marshal(c)
+	if err != nil {
+		panic(err)
+	}
+
+	return string(data)
 }
 
 type c01Case struct {
@@ -454,8 +477,9 @@ func c01CondExpr(c *c01Cond, style int) (string, bool) {
 			return fmt.Sprintf("%v", *c.Lit), true
 		}
 
+		// the request is a GET, or an OPTIONS (preflight) request
 		if *c.Lit {
-			return `Request.Method == "GET"`, true
+			return `Request.Method != "PATCH"`, true
 		}
 
 		return `Request.Method == "PATCH"`, true
@@ -468,7 +492,7 @@ func c01CondExpr(c *c01Cond, style int) (string, bool) {
 			return `Request.URL.Captures["c01-missing"] == "x"`, true
 		}
 
-		return `1 / (Request.Method == "GET" ? 0 : 1) == 1`, true
+		return `1 / (Request.Method == "PATCH" ? 1 : 0) == 1`, true
 	}
 
 	return "", false
@@ -584,7 +608,7 @@ var (
 	c01Hits        atomic.Int64                //nolint:gochecknoglobals
 	c01UpStatus    atomic.Int64                //nolint:gochecknoglobals
 	c01Transport   *http.Transport             //nolint:gochecknoglobals
-	c01ServicesMap = map[c01Cfg]*c01Services{} //nolint:gochecknoglobals
+	c01ServicesMap = map[string]*c01Services{} //nolint:gochecknoglobals
 )
 
 func c01Init() {
@@ -613,6 +637,16 @@ func c01ServeConf(cfg c01Cfg) *config.Configuration {
 
 	sc := config.ServiceConfig{Host: "127.0.0.1", Respond: rc}
 
+	if cfg.Cors != nil {
+		// the same block for both services, as an operator may write it; the decision service has no CORS middleware
+		sc.CORS = &config.CORS{
+			AllowedOrigins:   cfg.Cors.Origins,
+			AllowedMethods:   cfg.Cors.Methods,
+			AllowCredentials: cfg.Cors.Creds,
+			MaxAge:           time.Minute,
+		}
+	}
+
 	return &config.Configuration{Serve: config.ServeConfig{Decision: sc, Proxy: sc}}
 }
 
@@ -639,7 +673,7 @@ func c01Logger(level string) (zerolog.Logger, error) {
 }
 
 func c01GetServices(cfg c01Cfg) (*c01Services, error) {
-	if s, ok := c01ServicesMap[cfg]; ok {
+	if s, ok := c01ServicesMap[cfg.key()]; ok {
 		return s, nil
 	}
 
@@ -686,7 +720,7 @@ func c01GetServices(cfg c01Cfg) (*c01Services, error) {
 	}
 
 	svc.envoy = envoy_auth.NewAuthorizationClient(conn)
-	c01ServicesMap[cfg] = svc
+	c01ServicesMap[cfg.key()] = svc
 
 	return svc, nil
 }
@@ -817,15 +851,17 @@ func runPipeline(raw map[string]any) (any, error) {
 
 		script.takeTrace()
 
-		da, err := c01HTTP(svc.decisionURL+c01Path(&c), c.Accept, c.Req.Hdr)
+		da, err := c01HTTP(svc.decisionURL+c01Path(&c), c.Accept, &c.Req)
 		if err != nil {
 			return nil, err
 		}
 
-		res["decision"] = map[string]any{"status": da.status, "errbody": da.errBody, "trace": script.takeTrace()}
+		res["decision"] = map[string]any{
+			"status": da.status, "errbody": da.errBody, "trace": script.takeTrace(), "pre": da.pre,
+		}
 		obs["decision"] = c01RenderClass(da.location)
 
-		er, err := c01Envoy(svc, c01Path(&c), c.Accept, c.Req.Hdr)
+		er, err := c01Envoy(svc, c01Path(&c), c.Accept, &c.Req)
 		if err != nil {
 			return nil, err
 		}
@@ -854,14 +890,14 @@ func runPipeline(raw map[string]any) (any, error) {
 
 		script.takeTrace()
 
-		pa, err := c01HTTP(svc.proxyURL+c01Path(&c), c.Accept, c.Req.Hdr)
+		pa, err := c01HTTP(svc.proxyURL+c01Path(&c), c.Accept, &c.Req)
 		if err != nil {
 			return nil, err
 		}
 
 		res["proxy"] = map[string]any{
 			"status": pa.status, "hits": c01Hits.Load() - before, "relayed": pa.relayed, "errbody": pa.errBody,
-			"trace": script.takeTrace(),
+			"trace": script.takeTrace(), "pre": pa.pre,
 		}
 		obs["proxy"] = c01RenderClass(pa.location)
 
@@ -876,6 +912,14 @@ type c01HTTPAnswer struct {
 	relayed  bool
 	errBody  bool
 	location *string
+	// which of the watched response headers a middleware in front of the service handler has set (c01FrontHeaders)
+	pre []string
+}
+
+// c01FrontHeaders: response headers that only a middleware in front of the service handler sets (the CORS middleware
+// of the proxy): neither the error translator, nor the decision response, nor the upstream test server sets them.
+var c01FrontHeaders = []string{ //nolint:gochecknoglobals
+	"Vary", "Access-Control-Allow-Origin", "Access-Control-Allow-Credentials",
 }
 
 // c01HTTP sends the request; errBody = the error translator negotiated a body (it marks such responses with
@@ -883,13 +927,28 @@ type c01HTTPAnswer struct {
 // header is looked at rather than the bytes because net/http drops the body of 204/304 responses). The request goes
 // through the transport directly: http.Client would try to parse the Location header of a redirect response (and
 // report an error for an unparsable one) before it asks CheckRedirect.
-func c01HTTP(target string, accept, hdr *string) (c01HTTPAnswer, error) {
+func c01HTTP(target string, accept *string, rq *c01Req) (c01HTTPAnswer, error) {
 	ctx, cancel := context.WithTimeout(context.Background(), 20*time.Second)
 	defer cancel()
 
-	req, err := http.NewRequestWithContext(ctx, http.MethodGet, target, nil)
+	hdr := rq.Hdr
+	method := http.MethodGet
+
+	if rq.Preflight {
+		method = http.MethodOptions
+	}
+
+	req, err := http.NewRequestWithContext(ctx, method, target, nil)
 	if err != nil {
 		return c01HTTPAnswer{}, err
+	}
+
+	if rq.Preflight {
+		req.Header.Set("Access-Control-Request-Method", http.MethodGet)
+	}
+
+	if rq.Origin != nil {
+		req.Header.Set("Origin", *rq.Origin)
 	}
 
 	if accept != nil {
@@ -903,7 +962,7 @@ func c01HTTP(target string, accept, hdr *string) (c01HTTPAnswer, error) {
 	resp, err := c01Transport.RoundTrip(req)
 	if err != nil {
 		// no HTTP response at all (connection dropped): reported as status -1, certainly not a positive answer
-		return c01HTTPAnswer{status: -1}, nil //nolint:nilerr
+		return c01HTTPAnswer{status: -1, pre: []string{}}, nil //nolint:nilerr
 	}
 
 	defer resp.Body.Close()
@@ -921,6 +980,14 @@ func c01HTTP(target string, accept, hdr *string) (c01HTTPAnswer, error) {
 
 	if vals, ok := resp.Header["Location"]; ok && len(vals) != 0 {
 		res.location = &vals[0]
+	}
+
+	res.pre = []string{}
+
+	for _, name := range c01FrontHeaders {
+		if _, ok := resp.Header[name]; ok {
+			res.pre = append(res.pre, name)
+		}
 	}
 
 	return res, nil
@@ -945,13 +1012,25 @@ func c01RenderClass(loc *string) string {
 	return "present"
 }
 
-func c01Envoy(svc *c01Services, path string, accept, hdr *string) (map[string]any, error) {
+func c01Envoy(svc *c01Services, path string, accept *string, rq *c01Req) (map[string]any, error) {
 	ctx, cancel := context.WithTimeout(context.Background(), 20*time.Second)
 	defer cancel()
 
+	hdr := rq.Hdr
+	method := http.MethodGet
+
 	var headers map[string]string
-	if accept != nil || hdr != nil {
+	if accept != nil || hdr != nil || rq.Origin != nil || rq.Preflight {
 		headers = map[string]string{}
+	}
+
+	if rq.Preflight {
+		method = http.MethodOptions
+		headers["access-control-request-method"] = http.MethodGet
+	}
+
+	if rq.Origin != nil {
+		headers["origin"] = *rq.Origin
 	}
 
 	if accept != nil {
@@ -966,7 +1045,7 @@ func c01Envoy(svc *c01Services, path string, accept, hdr *string) (map[string]an
 		Attributes: &envoy_auth.AttributeContext{
 			Request: &envoy_auth.AttributeContext_Request{
 				Http: &envoy_auth.AttributeContext_HttpRequest{
-					Method: http.MethodGet, Path: path, Host: "c01.test", Scheme: "http", Headers: headers,
+					Method: method, Path: path, Host: "c01.test", Scheme: "http", Headers: headers,
 				},
 			},
 		},
